@@ -6,6 +6,7 @@
 import Resonate.Driver.Codec
 import Resonate.Generated.Sql
 import Resonate.Proofs.Wf
+import Resonate.Model.Json
 open Lean
 namespace Resonate
 
@@ -22,6 +23,17 @@ def handleLine (st : DriverState) (line : String) : DriverState × Json :=
     match j.getObjValAs? String "op" with
     | .error e => (st, Json.mkObj [("fatal", s!"op: {e}")])
     | .ok "reset" => ({ db := {} }, Json.mkObj [("ok", true)])
+    | .ok "json_enc" =>
+      match j.getObjValAs? (Array (String × String)) "pairs" with
+      | .error e => (st, Json.mkObj [("fatal", s!"pairs: {e}")])
+      | .ok ps => (st, Json.mkObj [("text", String.ofList (Resonate.Json.encMap (ps.toList.map fun kv => (kv.1.toList, kv.2.toList))))])
+    | .ok "json_dec" =>
+      match j.getObjValAs? String "text" with
+      | .error e => (st, Json.mkObj [("fatal", s!"text: {e}")])
+      | .ok t =>
+        match Resonate.Json.decMap t.toList with
+        | some l => (st, Json.mkObj [("pairs", toJson (l.map fun kv => (String.ofList kv.1, String.ofList kv.2)))])
+        | none => (st, Json.mkObj [("pairs", Json.null)])
     | .ok "sys_init" =>
       match (do
           let cfg ← j.getObjValAs? Config "cfg"
